@@ -37,6 +37,10 @@ type c03Case struct {
 	Multiline bool `json:"multiline_replies,omitempty"`
 	// Prior: the same *Msg values have been sent - and delivered - by an earlier, fault-free call
 	Prior bool `json:"delivered_before,omitempty"`
+	// CtxEnd > 0: the context handed to the *WithContext call is cancelled by the caller while the content of a message
+	// is being produced (at the n-th chunk boundary of the writer-backed producers); production then carries on after a
+	// short pause. No fault: whatever the call makes of the cancellation, only complete messages may be committed.
+	CtxEnd int `json:"context_cancelled_at_chunk,omitempty"`
 }
 
 type c03Dry struct {
@@ -45,10 +49,10 @@ type c03Dry struct {
 	sent      []byte
 }
 
-func c03Msgs(c *c03Case, gate *int32) ([]*mail.Msg, error) {
+func c03Msgs(c *c03Case, gate *int32, yield func()) ([]*mail.Msg, error) {
 	var msgs []*mail.Msg
 	for i := range c.Specs {
-		env := &gen.Env{Faults: map[string]gen.Fault{}}
+		env := &gen.Env{Faults: map[string]gen.Fault{}, Yield: yield}
 		if i < len(c.ProdFaults) {
 			for k, f := range c.ProdFaults[i] {
 				f.Gate = gate
@@ -69,7 +73,21 @@ func runC03Case(r *ev.Run, c c03Case) c03Dry {
 		r.Violate(ev.Violation{Key: key, What: what, Case: c, Observed: obs})
 	}
 	var gate int32 = 1
-	msgs, err := c03Msgs(&c, &gate)
+	var cancelFn atomic.Value
+	var chunks int32
+	var yield func()
+	if c.CtxEnd > 0 {
+		yield = func() {
+			if atomic.AddInt32(&chunks, 1) == int32(c.CtxEnd) {
+				if f, ok := cancelFn.Load().(context.CancelFunc); ok {
+					f()
+					r.Count("contexts_cancelled_inside_a_message", 1)
+					time.Sleep(60 * time.Millisecond) // whoever watches the context gets the time to act
+				}
+			}
+		}
+	}
+	msgs, err := c03Msgs(&c, &gate, yield)
 	if err != nil {
 		r.HarnessError("C03 build: " + err.Error())
 		return c03Dry{}
@@ -90,14 +108,18 @@ func runC03Case(r *ev.Run, c c03Case) c03Dry {
 	if c.WriteFail >= 0 {
 		tmo = 500 * time.Millisecond // after a transport failure the client waits for its own deadline
 	}
-	sr := runSendT(func(int) *refsmtp.Config {
+	var ctxHook func(context.CancelFunc)
+	if c.CtxEnd > 0 {
+		ctxHook = func(f context.CancelFunc) { cancelFn.Store(f) }
+	}
+	sr := runSendFC(&refsmtp.Farm{NewConfig: func(int) *refsmtp.Config {
 		return &refsmtp.Config{Decide: scriptDecide(c.Script), AllowUTF8: true, Multiline: c.Multiline}
-	}, func(n int, tc *faultio.TrackConn) {
+	}, Wrap: func(n int, tc *faultio.TrackConn) {
 		tc.KeepBytes = true
 		if n == 0 {
 			tc.FailWriteAt = c.WriteFail
 		}
-	}, []mail.Option{mail.WithTLSPolicy(mail.NoTLS)}, msgs, c.Via, false, tmo)
+	}}, []mail.Option{mail.WithTLSPolicy(mail.NoTLS)}, msgs, c.Via, tmo, ctxHook)
 	atomic.StoreInt32(&gate, 0)
 	if sr.Panic != nil {
 		viol("panic:"+c.FailClass, fmt.Sprintf("client panicked: %v", sr.Panic), nil)
@@ -484,7 +506,7 @@ func c03Spec(r *ev.Run, stream string, idx, mi int) gen.MsgSpec {
 
 func runC03(r *ev.Run, rep *ev.ReplayDoc) ev.Summary {
 	sum := ev.Summary{
-		Rule: "batches of 1-3 seeded messages (C01 shapes, canonical CRLF; for every fourth batch the server sends all its replies as multi-line replies) sent through Send / DialAndSend / SendWithSMTPClient under single faults enumerated per batch: every content producer failing before/inside/after its data; the transport failing writes at offsets of every class inside each message's DATA phase (first byte, header block, every boundary line, part bodies, closing boundary, terminating dot) taken from a dry run; every reply class {4yz,5yz,drop} at every command position, plus 'queued, but the connection dies before the 250 leaves' at end-of-data; plus fault pairs (producer x reply, transport x reply) for small batches; every transport fault, every producer fault inside or after its data and the 4yz/drop replies at DATA / end-of-data / RSET are also run with a retry (the undelivered *Msg values are sent again by a new call over a healthy connection: each must be committed once, complete). Producer faults are also run on messages an earlier fault-free call has already delivered (the failure of the later call still has to be reported on the Msg). Also pairs of overlapping calls on one established connection (the second Send starts while the first call is inside its DATA phase). Oracle compares the reference server's commit log with the complete renderings. non-trivial = a fault was injected; distinct by (batch, fault)",
+		Rule: "batches of 1-3 seeded messages (C01 shapes, canonical CRLF; for every fourth batch the server sends all its replies as multi-line replies) sent through Send / DialAndSend / SendWithSMTPClient under single faults enumerated per batch: every content producer failing before/inside/after its data; the transport failing writes at offsets of every class inside each message's DATA phase (first byte, header block, every boundary line, part bodies, closing boundary, terminating dot) taken from a dry run; every reply class {4yz,5yz,drop} at every command position, plus 'queued, but the connection dies before the 250 leaves' at end-of-data; plus fault pairs (producer x reply, transport x reply) for small batches; every transport fault, every producer fault inside or after its data and the 4yz/drop replies at DATA / end-of-data / RSET are also run with a retry (the undelivered *Msg values are sent again by a new call over a healthy connection: each must be committed once, complete). Producer faults are also run on messages an earlier fault-free call has already delivered (the failure of the later call still has to be reported on the Msg). Also calls whose context is cancelled by the caller while a message is being produced (no fault), and pairs of overlapping calls on one established connection (the second Send starts while the first call is inside its DATA phase). Oracle compares the reference server's commit log with the complete renderings. non-trivial = a fault was injected; distinct by (batch, fault)",
 		Assumptions: []string{
 			"expected renderings are produced by the harness after the call with all producer faults disarmed (rendering is repeatable, C11)",
 			"what counts as committed is what the reference server received between 354 and CRLF.CRLF and acknowledged with 2yz",
@@ -665,6 +687,27 @@ func runC03(r *ev.Run, rep *ev.ReplayDoc) ev.Summary {
 		if i%401 == 0 {
 			r.Sample(map[string]any{"batch": len(c.Specs), "via": c.Via, "fault_class": c.FailClass, "script": scriptString(c.Script), "write_fail_at": c.WriteFail})
 		}
+	})
+	// the caller's context ends while a message is being produced (no fault at all)
+	var xc []c03Case
+	for b := 0; b < r.Pick(6, 30); b++ {
+		for _, via := range []string{"dialandsend", "withclient"} {
+			for _, at := range []int{1, 3, 7} {
+				c := c03Case{Via: via, WriteFail: -1, FailClass: "context-cancelled-inside-message", CtxEnd: at}
+				for mi := 0; mi < 1+b%2; mi++ {
+					sp := c03Spec(r, "c03ctx", b, mi)
+					for pi := range sp.Parts {
+						sp.Parts[pi].Via, sp.Parts[pi].Chunk = "writer", 64
+					}
+					c.Specs = append(c.Specs, sp)
+				}
+				xc = append(xc, c)
+			}
+		}
+	}
+	r.ParallelN(8, len(xc), func(i int) {
+		runC03Case(r, xc[i])
+		r.Eval(fmt.Sprintf("%s|%s|ctxend%d", xc[i].Specs[0].ID, xc[i].Via, xc[i].CtxEnd), true)
 	})
 	// overlapping calls on one connection
 	var cc []c03ConcCase
